@@ -4,7 +4,7 @@ patch="$1"; prop="$2"; tier="${3:-quick}"
 cd /repo || exit 2
 if ! git diff --quiet; then echo "/repo has uncommitted changes"; exit 2; fi
 if ! git apply "$patch" 2>/dev/null; then
-  if ! git apply -3 "$patch" 2>/dev/null; then echo "patch does not apply"; git checkout -- . ; exit 3; fi
+  if ! git apply -3 "$patch" 2>/dev/null; then echo "patch does not apply"; git reset -q --hard HEAD; exit 3; fi
   git reset -q
 fi
 cd /verif && ./check "$prop" "$tier" 2>&1 | tail -4
